@@ -23,6 +23,7 @@ type SpecEnv struct {
 	pkg    *types.Package
 	vars   map[string]Val
 	lookup func(name string) (Val, bool)
+	lookupCell func(name string) (Val, bool) // variables kept in memory cells: a parameter that is reassigned lives in one
 	st     *State
 	old    *State
 	pre    *State // state at the entry of the loop whose invariant is being evaluated (for pre(E))
@@ -220,6 +221,17 @@ func (s *Session) evalSpec(se *SpecEnv, e SExpr) Val {
 }
 
 func (s *Session) lookupVar(se *SpecEnv, name string) (Val, bool) {
+	if se.fr != nil && se.lookup != nil && se.fr.fn != nil {
+		// a parameter that is reassigned in the body: its current value is the latest SSA definition (a phi at a
+		// loop head, or the content of its cell when its address is taken), not the value it had at entry
+		for _, p := range se.fr.fn.Params {
+			if p.Name() == name {
+				if v, ok := se.lookup(name); ok {
+					return v, true
+				}
+			}
+		}
+	}
 	if v, ok := se.vars[name]; ok {
 		return v, true
 	}
